@@ -110,6 +110,10 @@ def run_shard(spec, acc):
                                     rng.randrange(3),
                                     rng.choice(["timeout", "timeout", "read_error",
                                                 "write_error"])))
+                                variants.append("rebootlate-early:%d:%s" % (
+                                    rng.randrange(40),
+                                    rng.choice(["timeout", "timeout", "read_error",
+                                                "write_error"])))
                             if j == 0 and kind != "timeout" and \
                                     not fu.name.startswith("uiHeartbeat") and \
                                     rng.random() < (0.5 if thorough else 0.15):
@@ -117,6 +121,11 @@ def run_shard(spec, acc):
                             if j == 0 and not fu.name.startswith("uiHeartbeat") and \
                                     rng.random() < (0.5 if thorough else 0.12):
                                 variants.append("flap:%d" % rng.choice([2, 5, 6, 7, 10, 16]))
+                            if j == 0 and not fu.name.startswith("uiHeartbeat") and \
+                                    fu.name != "version" and \
+                                    rng.random() < (0.5 if thorough else 0.15):
+                                variants.append("after-refusal:%04x" % rng.choice(
+                                    [0x6A8F, 0x6A8F, 0x6B10, 0x69A0, 0x6BFF, 0x6D00]))
                             if j == 0 and rng.random() < (0.5 if thorough else 0.15):
                                 variants.append("quiet:%d" % rng.choice([121, 130, 601, 3601,
                                                                          86401]))
@@ -142,6 +151,7 @@ def run_shard(spec, acc):
 
 _base_cache = {}
 _reboot_cache = {}
+_reboot_roles = {}
 
 
 def reboot_bringup_len(shape, fu, v1):
@@ -168,6 +178,7 @@ def reboot_bringup_len(shape, fu, v1):
             if e is None and isinstance(r, dict) and \
                     r.get("errorcode") == baseline(fu)[2].get("errorcode"):
                 n = len(s.bus.apdus(mark)) - baseline(fu)[0]
+                _reboot_roles[key] = [fl.role_of(e_["apdu"]) for e_ in s.bus.apdus(mark)][:n]
         _reboot_cache[key] = n
     return _reboot_cache[key]
 
@@ -258,6 +269,28 @@ def run_case_(acc, c, roles=None):
             dev.mode = 0x03
             dev.pending_link = None
             dev.adv_policy = {}
+            for k_ in ("hb_back_mode", "hb_exit_mode"):
+                dev.cfg[k_] = shape.devcfg.get(k_)
+        if c["variant"].startswith("after-refusal:"):
+            # the request before the faulted one was turned down by the device (an error
+            # status of its own range on one exchange - nothing wrong with the link): what
+            # the link failure then needs is the same
+            if fu.post:
+                fu.post(dev)
+            s.bus.arm({0: Fault("sw", sw=int(c["variant"].split(":")[1], 16))})
+            rt, et, _ = s.request(fu.request)
+            s.bus.arm({})
+            acc.count("link_failures_right_after_a_refusal_by_the_device")
+            if et is not None or not isinstance(rt, dict) or \
+                    type(rt.get("errorcode")) is not int:
+                return bad("refused-request-no-verdict:%s" % fu.command, reply=rt,
+                           exc=repr(et))
+            dev.mode = 0x03
+            dev.pending_link = None
+            dev.adv_policy = {}
+            if hasattr(dev, "reset_adv"):
+                dev.reset_adv()
+            dev.reset_sign()
             for k_ in ("hb_back_mode", "hb_exit_mode"):
                 dev.cfg[k_] = shape.devcfg.get(k_)
         if c["variant"].startswith("quiet:") and "jc" in _QUIET:
@@ -421,6 +454,17 @@ def run_case_(acc, c, roles=None):
                 return
             plan = {nb - 3 + int(j): Fault(dk)}
             acc.count("faults_late_in_repair_through_bootloader")
+            if c["variant"].startswith("rebootlate-early"):
+                # ... or one of the exchanges before the signer is opened (mode, UI version,
+                # echo, retries, PIN bytes, unlock): the repair did not complete either, the
+                # device is still what it was, and the next request repairs
+                rr = _reboot_roles.get((fu.name, v1), [])
+                stop_ = rr.index("exit") if "exit" in rr else 0
+                if stop_ < 3:
+                    acc.count("rebootlate_skipped")
+                    return
+                plan = {1 + int(j) % (stop_ - 1): Fault(dk)}
+                acc.count("faults_early_in_repair_through_bootloader")
         s.bus.arm(plan)
         mark = len(s.bus.events)
         r2, e2, _ = s.request(fu.request)
@@ -431,6 +475,13 @@ def run_case_(acc, c, roles=None):
             # any bring-up, also of a repair's - with "stop the manager")
             acc.count("faults_at_the_onboard_query_of_a_repair")
             return bad("stopped-by-a-fault-at-the-onboard-query-of-a-repair",
+                       exc=repr(e2), reply=r2)
+        if e2 is not None and c["variant"].startswith("rebootlate-early") and plan and \
+                _reboot_roles.get((fu.name, v1), [])[min(plan)] == "cmd45":
+            # (_handle_bootloader() answers any failure of the retries query - "how many PIN
+            # attempts are left?" - with "stop the manager", in a repair as at start-up)
+            acc.count("faults_at_the_retries_query_of_a_repair")
+            return bad("stopped-by-a-fault-at-the-retries-query-of-a-repair",
                        exc=repr(e2), reply=r2)
         if e2 is not None:
             return bad("followup-exception:%s:%s" % (fu.command, type(e2).__name__),
@@ -476,7 +527,7 @@ def run_case_(acc, c, roles=None):
                     r3.get("errorcode") != baseline(fu)[2].get("errorcode"):
                 return bad("not-repaired-after-double-fault:%s" % fu.command, reply=r3,
                            exc=repr(e3), roles=roles3[:8])
-            if roles3[:4] != BRINGUP:
+            if roles3[:4] != BRINGUP and not c["variant"].startswith("rebootlate-early"):
                 return bad("no-full-bring-up-after-double-fault:%s" % fu.command,
                            roles=roles3[:8])
             return
